@@ -194,6 +194,9 @@ class Machine(object):
         self.sampled = False            # arithmetic was evaluated on representatives of out-of-range wide characters
         self.cellwatch = set(a for fi in self.static.info.values() for a in fi.fill)
         self.cellneeds = None           # projected key -> needed cells (from the pre-analysis)
+        self.dmax = DMAX
+        self.harness = {'URI', 'STATE', 'ERRPOS', 'OCT'}   # caller-side objects of the analysis harness
+        self.input_writable = False     # concrete mode: in-place transformers may store into the text
         self.coarse_regs = True         # URI text-range fields hold NULL / placeholder / 'some input pointer'
         self.optimistic = False         # pre-analysis mode: fill-array cells are unknown, unknown branches fork
         self.fresh = False              # the symbol at rel -1 was applied in this step
@@ -274,8 +277,8 @@ class Machine(object):
         t = p[0]
         if t == 'p':
             r = p[1] + k
-            if r < -DMAX:
-                raise Imprecise('pointer moved more than %d behind the frontier at %s' % (DMAX, fmt_loc(e.loc)))
+            if r < -self.dmax:
+                raise Imprecise('pointer moved more than %d behind the frontier at %s' % (self.dmax, fmt_loc(e.loc)))
             return ('p', r)
         if t == 'pp':
             if k < 0:
@@ -288,6 +291,8 @@ class Machine(object):
             path = p[2]
             if path and isinstance(path[-1], int):
                 return ('a', p[1], path[:-1] + (path[-1] + k,))
+            if path == () and p[1][0] == 'H':
+                return ('a', p[1], (k,))        # a heap block used as an array
             raise Imprecise('pointer arithmetic on non-array place at %s' % fmt_loc(e.loc))
         if t == 'e':
             if k > 0:
@@ -322,7 +327,7 @@ class Machine(object):
                 return TOP
         if obj[0] == 'G' and obj[1] == self.safe_name and path == ():
             return SAFE
-        if obj[0] == 'G' and obj[1] not in ('URI', 'STATE', 'ERRPOS', 'OCT'):
+        if obj[0] == 'G' and obj[1] not in self.harness:
             raise Imprecise('read of global %s at %s' % (obj[1], fmt_loc(e.loc)))
         return TOP
 
@@ -333,6 +338,9 @@ class Machine(object):
                     self.trace.append(None)
                 v = ('c', v[1])
         if pl[0] == 'IN':
+            if self.input_writable:
+                self.obs.append(('in-store', pl[1], v, loc))
+                return
             raise Finding('no-input-write', 'input-write', loc, 'stores through a pointer into the input text')
         obj, path = pl
         if obj[0] == 'H':
@@ -348,7 +356,7 @@ class Machine(object):
                 v = PIN
         if self.cellwatch and obj[0] == 'L' and len(path) == 2 and path[0] in self.cellwatch:
             self.obs.append(('cell-write', obj[1], path[0], path[1]))
-        if obj[0] == 'G' and obj[1] not in ('URI', 'STATE', 'ERRPOS', 'OCT'):
+        if obj[0] == 'G' and obj[1] not in self.harness:
             raise Finding('no-global-write', 'global-write', loc, 'store to global %s' % obj[1])
         st.env[pl] = v
 
@@ -417,6 +425,11 @@ class Machine(object):
             a = self.rv(st, e.c[0])
             b = self.rv(st, e.c[1])
             op = e.v
+            if st.eof and op == '-':
+                if a == END:
+                    a = ('p', 0)
+                if b == END:
+                    b = ('p', 0)
             if op in ('==', '!=', '<', '>', '<=', '>='):
                 try:
                     r = self.compare(st, op, a, b, e)
